@@ -16,7 +16,8 @@ EXTENDS LexContract
 CONSTANTS Classes, MaxLen, EscLen, SeqLen
 VARIABLE row
 
-EscAlphabet == {"bs", "d6", "d1", "g", "sp", "lf", "dq", "a"}
+\* nbsp / vt: white space for Unicode but not for CSS - it does not end a hex escape and is not swallowed by it
+EscAlphabet == {"bs", "d6", "d1", "g", "sp", "lf", "dq", "a", "nbsp", "vt"}
 Strs(A, n) == UNION {[1..k -> A] : k \in 0..n}
 
 \* ---- token table: id -> text, expected type, expected value -------------------------------------------------------
@@ -92,7 +93,12 @@ Truncs == {T("open-string-dq", "\"abc", "STRING", "\"abc\""), T("open-string-sq"
 TruncRows == {[kind |-> "classify", a |-> p.id, sep |-> s, b |-> t.id, texts |-> <<p.text, t.text>>,
                expect |-> Exp(p) \o SepTok(s) \o <<[type |-> t.type, value |-> t.value]>>, full |-> TRUE] :
                   p \in {x \in Toks : x.id \in {"ident", "semicolon", "lbrace", "colon", "at-import", "number"}}, s \in {"sp", "lf"}, t \in Truncs}
-Rows == ClassRows \cup EscRows \cup TruncRows \cup (IF SeqLen > 0 THEN SeqRows \cup CharsetRows ELSE {})
+\* the same unterminated string twice: in the middle of the input (ended by the line break: INVALID) and at its end (completed)
+Tk(t, v) == [type |-> t, value |-> v]
+EchoRows == {[kind |-> "classify", a |-> "open-string-mid", sep |-> "sp", b |-> "open-string-end", texts |-> <<"zz " \o q \o "abc^nzz", q \o "abc">>,
+              expect |-> <<Tk("IDENT", "zz"), Tk("S", " "), Tk("INVALID", q \o "abc"), Tk("S", "^n"), Tk("IDENT", "zz"), Tk("S", " "),
+                           Tk("STRING", q \o "abc" \o q)>>, full |-> TRUE] : q \in {"\"", "'"}}
+Rows == ClassRows \cup EscRows \cup TruncRows \cup EchoRows \cup (IF SeqLen > 0 THEN SeqRows \cup CharsetRows ELSE {})
 Init == row \in Rows
 Next == UNCHANGED row
 Spec == Init /\ [][Next]_row
